@@ -24,7 +24,7 @@ PROPS = {
         "theorems": ["Rtr.C16.guarded_no_race", "Rtr.C16.single_writer_no_race", "Rtr.C16.wellLocked_sound",
                      "Rtr.C16.wellLockedProg_sound", "Rtr.C16.writes_only_under_W", "Rtr.C16.read_section_snapshot",
                      "Rtr.C16.reads_linearizable_partial", "Rtr.C16.api_wellLocked", "Rtr.C16.api_writes_guarded",
-                     "Rtr.C16.readers_single_section", "Rtr.C16.readers_never_write", "Rtr.C16.readerProg_wellLocked",
+                     "Rtr.C16.readers_single_section", "Rtr.C16.record_writers_single_section", "Rtr.C16.readers_never_write", "Rtr.C16.readerProg_wellLocked",
                      "Rtr.C16.writerProg_wellLocked", "Rtr.C16.api_no_race", "Rtr.C16.api_reads_snapshot"],
     },
     "C06": {
@@ -604,6 +604,53 @@ MUTANTS = [
      "\tpthread_rwlock_rdlock(&spki_table->lock);\n\n\tif (!tommy_hashlin_search(&spki_table->hashtable, spki_table->cmp_fp, &entry, hash)) {",
      "spki_table_remove_entry"),
 ]
+
+
+GATE_THEOREMS = ["Rtr.C16.api_wellLocked", "Rtr.C16.api_writes_guarded", "Rtr.C16.readers_single_section",
+                 "Rtr.C16.record_writers_single_section", "Rtr.C16.readers_never_write"]
+
+
+def gate(rep, pid):
+    """Lock-discipline gate for the checks whose sequential theorems are claimed for tables shared between threads
+    (C01, C02, C09, C10, C03): the lock IR is regenerated from the current source and the generated obligations
+    'every access guarded', 'every read call and every single-record update is ONE critical section' are re-checked.
+    Without them the sequential refinement says nothing about concurrent histories (a test-then-act split over two
+    lock acquisitions keeps every access guarded and still loses updates).  True when the gate holds."""
+    try:
+        _INFO["info"] = gen_locks.main()
+    except SystemExit as ex:
+        rep.build_log = str(ex)
+        vlib.proof_failure(rep, "lock-discipline gate: translator tools/gen_locks.py failed on the current source")
+        return False
+    sub = vlib.Report(pid, getattr(rep, "tier", "quick"))
+    ok = vlib.prove(sub, ["RtrProps.C16"], GATE_THEOREMS)
+    for t, v in sub.obligations.items():
+        rep.obligations[t] = v
+    rep.cov.setdefault("lock_gate", {})["theorems"] = GATE_THEOREMS
+    if ok:
+        return True
+    diag = ""
+    okd, dlog = vlib.lake_build(["lockdriver"])
+    drv = vlib.driver_path("lockdriver")
+    if okd and os.path.exists(drv):
+        bad, table = ir_diagnosis(drv)
+        diag = "".join("IR: %s violates '%s': %s\n" % b for b in bad)
+        info = gen_locks_info()
+        names = [f.get("name") if isinstance(f, dict) else str(f) for f in info.get("fns", [])]
+        for fn in ("pfx_table_add", "pfx_table_remove", "spki_table_add_entry", "spki_table_remove_entry", "pfx_table_validate_r",
+                   "pfx_table_validate", "pfx_table_for_each_ipv4_record", "pfx_table_for_each_ipv6_record", "spki_table_get_all",
+                   "spki_table_search_by_ski"):
+            if fn in names:
+                out, rc, err = vlib.run_lines(drv, ["bound any %d" % names.index(fn)])
+                if rc == 0 and out and out[0] != "1":
+                    diag += "IR: %s takes a lock %s times per call (must be exactly one critical section)\n" % (fn, out[0])
+    main_log = getattr(rep, "build_log", None)
+    rep.build_log = diag + "\n" + getattr(sub, "build_log", "")
+    vlib.proof_failure(rep, "lock-discipline gate (generated obligations of RtrProps/C16.lean over the lock IR of the current source):\n  " +
+                       "\n  ".join(t for t in GATE_THEOREMS if not sub.obligations.get(t)))
+    if main_log is not None:
+        rep.build_log = main_log
+    return False
 
 
 def mutation_selftest():
